@@ -398,7 +398,7 @@ def h_option_flatten(pattern, deep):
 
 def jobs_for(prop, tier):
     if prop == 'C01':
-        return jobs_c01(tier) + jobs_carry(tier)
+        return jobs_c01(tier) + jobs_carry(tier) + jobs_numpy_getitem(tier)
     if prop == 'C05':
         return jobs_c05(tier) + [j for j in jobs_option_below(tier) if j[1][3] in ('num', 'localindex')] + jobs_flatten(tier)
     if prop == 'C09':
@@ -409,7 +409,7 @@ def jobs_for(prop, tier):
         return [j for j in jobs_option_below(tier) if j[1][3] == 'combinations'] + jobs_combinations(tier)
     if prop == 'C03':
         return jobs_c03(tier) + jobs_option_reduce(tier)
-    return {'C01': jobs_c01, 'C02': jobs_c02, 'C03': jobs_c03, 'C04': jobs_c04, 'C06': jobs_c06, 'C08': jobs_c08, 'C10': jobs_c10, 'C05': jobs_c05, 'C09': jobs_c09}.get(prop, lambda t: [])(tier)
+    return {'C02': jobs_c02, 'C03': jobs_c03, 'C04': jobs_c04, 'C06': jobs_c06, 'C08': (lambda t: jobs_c08(t) + jobs_numpy(t)), 'C12': jobs_numpy, 'C10': jobs_c10, 'C05': jobs_c05, 'C09': jobs_c09}.get(prop, lambda t: [])(tier)
 
 
 # ------------------------------------------------------------------------------------------------ C01: getitem_next of list nodes
@@ -1963,3 +1963,209 @@ def jobs_option_reduce(tier):
     if tier != 'quick':
         cases += [((0, 1, 0, 1, 0), [0, 0, 1, 1, 1]), ((1, 0, 1), [0, 1, 1]), ((0, 0, 0), [0, 0, 0])]
     return [(h_option_reduce, (p, par, pos), 600) for p, par in cases for pos in (False, True)]
+
+
+# ------------------------------------------------------------------------------------------------ C08 / C12: NumpyArray::mergemany (rectilinear concatenation)
+def build_numpy64(nc, name, shape):
+    """contiguous int64 NumpyArray of the given shape over a symbolic buffer"""
+    from .cpp01 import struct_of
+    mod = module_of(SRC['NA'])
+    fo, sz, al, fields = mod.types.struct_layout(struct_of(mod, '_ZNK7awkward10NumpyArray6lengthEv'))
+    n = 1
+    for s_ in shape:
+        n *= s_
+    data = nc.m.array(name + '_data', ('i', 64), max(1, n), const=True)
+    a0 = z3.Array(name + '_data', z3.BitVecSort(64), z3.BitVecSort(64))
+    strides, acc = [], 8
+    for s_ in reversed(shape):
+        strides.insert(0, acc); acc *= s_
+    nc.m.record(name + '_shape', {8 * i: (BV(v), 8) for i, v in enumerate(shape)}, const=True)
+    nc.m.record(name + '_strides', {8 * i: (BV(v), 8) for i, v in enumerate(strides)}, const=True)
+    cells = nc.content_header(name, nc.vptr_of('N7awkward10NumpyArrayE', 'NA'))
+    nb = 8 * len(shape)
+    cells.update({fo[1]: (data, 8), fo[1] + 8: (NULL, 8), fo[2]: (BV(0, 32), 4),
+                  fo[4]: (Ptr(name + '_shape', 0), 8), fo[4] + 8: (Ptr(name + '_shape', nb), 8), fo[4] + 16: (Ptr(name + '_shape', nb), 8),
+                  fo[5]: (Ptr(name + '_strides', 0), 8), fo[5] + 8: (Ptr(name + '_strides', nb), 8), fo[5] + 16: (Ptr(name + '_strides', nb), 8),
+                  fo[6]: (BV(0), 8), fo[7]: (BV(8), 8),
+                  fo[8]: (Ptr(name, fo[8] + 16), 8), fo[8] + 8: (BV(1), 8), fo[8] + 16: (BV(ord('l'), 8), 1), fo[8] + 17: (BV(0, 8), 1),
+                  fo[9]: (BV(5, 32), 4)})
+    this = nc.m.record(name, cells, const=True)
+
+    def nest(d, base):
+        if d == len(shape) - 1:
+            return [Elem(z3.Select(a0, BV(base + i))) for i in range(shape[d])]
+        step = 1
+        for s_ in shape[d + 1:]:
+            step *= s_
+        return [nest(d + 1, base + i * step) for i in range(shape[d])]
+    return this, nest(0, 0), a0, n
+
+
+@guard
+def h_numpy_mergemany(shapes):
+    """NumpyArray::mergemany of contiguous int64 arrays with equal inner shape (numpy.concatenate along axis 0): the result lists the rows of the
+    first array, then of the others, every value unchanged, and every buffer access stays inside the buffers (the output buffer is sized for all
+    the items, not only for the rows)"""
+    nc = NodeCtx(['NA', 'IDX', 'CNT', 'UTL', 'KD', 'IDS', 'EA'], [], unwind=max(24, sum(s[0] for s in shapes) * 4 + 20))
+    arrs = [build_numpy64(nc, 'np%d' % k, s) for k, s in enumerate(shapes)]
+    cells = {}
+    for i, (t, v, a0, n) in enumerate(arrs[1:]):
+        cells[16 * i] = (t, 8); cells[16 * i + 8] = (NULL, 8)
+    nc.m.record('othersbuf', cells, const=True)
+    nb = 16 * (len(arrs) - 1)
+    others = nc.m.record('others', {0: (Ptr('othersbuf', 0), 8), 8: (Ptr('othersbuf', nb), 8), 16: (Ptr('othersbuf', nb), 8)}, const=True)
+    nc.m.record('ret', {})
+    out = nc.m.call('_ZNK7awkward10NumpyArray9mergemanyERKSt6vectorISt10shared_ptrINS_7ContentEESaIS4_EE', [Ptr('ret', 0), arrs[0][0], others])
+    obls = [('mergemany does not raise', out.raised)]
+    want = [row for (t, v, a0, n) in arrs for row in v]
+    rcell = nc.m.cell('ret', 0)
+    for g, res in (nodeh.decode_cases(nc, out.mem, rcell) if rcell is not None else []):
+        if res is None:
+            obls.append(('a result is returned', z3.And(g, z3.Not(out.raised))))
+        else:
+            obls += [(nm, z3.And(g, z3.Not(out.raised), c)) for nm, c in compare(value(res), want)]
+
+    def replay(model, ent):
+        prog, exp = '', []
+        for k, ((t, v, a0, n), s) in enumerate(zip(arrs, shapes)):
+            vals = [1000 * k + i for i in range(n)]          # contents do not steer control flow: distinct values show any mix-up
+            prog += 'i64nd %d %s %s ' % (len(s), ' '.join(map(str, s)), ' '.join(map(str, vals)))
+
+            def nest(d, base):
+                if d == len(s) - 1:
+                    return vals[base:base + s[d]]
+                step = 1
+                for x in s[d + 1:]:
+                    step *= x
+                return [nest(d + 1, base + i * step) for i in range(s[d])]
+            exp += nest(0, 0)
+        return akrun_check(prog + 'mergemany %d' % (len(shapes) - 1), exp, 'mergemany of int64 arrays of shapes %s' % (shapes,))
+    return mdischarge(nc.m, 'NumpyArray::mergemany shapes=%s' % (shapes,), obls, [], replay=replay,
+                      extra=dict(bounds='contiguous int64 arrays of shapes %s (concrete, case split), all values symbolic' % (shapes,)))
+
+
+def jobs_numpy(tier):
+    cases = [((3,), (2,)), ((2, 3), (1, 3)), ((0,), (2,)), ((1, 2), (0, 2), (2, 2)), ((2, 1, 2), (1, 1, 2))]
+    if tier != 'quick':
+        cases += [((2, 2), (2, 2), (1, 2)), ((1,), (1,), (1,)), ((3, 0), (1, 0))]
+    return [(h_numpy_mergemany, (c,), 600) for c in cases]
+
+
+# ------------------------------------------------------------------------------------------------ C01: NumpyArray::getitem on strided views
+@guard
+def h_numpy_getitem(n, stride, offset, kind, k):
+    """NumpyArray::getitem(Slice) on a one-dimensional int64 *view* (any byte offset and stride, as a[offset::stride] produces): an integer-array
+    index selects view[i] = buffer[offset + stride * i] for each (wrapped) i, a range selects the CPython slice; out-of-range indexes raise"""
+    from .cpp01 import struct_of
+    from .c18 import slice_sel, KNONE
+    nc = NodeCtx(['NA', 'IDX', 'CNT', 'UTL', 'KD', 'IDS', 'SLC', 'RA'], [], unwind=max(24, 4 * n + 4 * k + 20))
+    mod = module_of(SRC['NA'])
+    fo, sz, al, fields = mod.types.struct_layout(struct_of(mod, '_ZNK7awkward10NumpyArray6lengthEv'))
+    buflen = offset + stride * max(n - 1, 0) + 1
+    data = nc.m.array('npdata', ('i', 64), buflen, const=True)
+    a0 = z3.Array('npdata', z3.BitVecSort(64), z3.BitVecSort(64))
+    view = [z3.Select(a0, BV(offset + stride * i)) for i in range(n)]
+    nc.m.record('np_shape', {0: (BV(n), 8)}, const=True)
+    nc.m.record('np_strides', {0: (BV(8 * stride), 8)}, const=True)
+    cells = nc.content_header('np', nc.vptr_of('N7awkward10NumpyArrayE', 'NA'))
+    cells.update({fo[1]: (data, 8), fo[1] + 8: (NULL, 8), fo[2]: (BV(0, 32), 4),
+                  fo[4]: (Ptr('np_shape', 0), 8), fo[4] + 8: (Ptr('np_shape', 8), 8), fo[4] + 16: (Ptr('np_shape', 8), 8),
+                  fo[5]: (Ptr('np_strides', 0), 8), fo[5] + 8: (Ptr('np_strides', 8), 8), fo[5] + 16: (Ptr('np_strides', 8), 8),
+                  fo[6]: (BV(8 * offset), 8), fo[7]: (BV(8), 8),
+                  fo[8]: (Ptr('np', fo[8] + 16), 8), fo[8] + 8: (BV(1), 8), fo[8] + 16: (BV(ord('l'), 8), 1), fo[8] + 17: (BV(0, 8), 1), fo[9]: (BV(5, 32), 4)})
+    this = nc.m.record('np', cells, const=True)
+    if kind == 'array':
+        sdata = nc.m.array('slicedata', ('i', 64), max(1, k), const=True)
+        s0 = z3.Array('slicedata', z3.BitVecSort(64), z3.BitVecSort(64))
+        iv = [z3.Select(s0, BV(j)) for j in range(k)]
+        nc.m.record('sliceshape', {0: (BV(k), 8)}, const=True)
+        nc.m.record('slicestrides', {0: (BV(1), 8)}, const=True)
+        ic = {0: (nc.vptr_of('N7awkward12SliceArrayOfIlEE', 'SLC'), 8)}
+        nc.index_cells(ic, 8, sdata, BV(0), BV(k))
+        ic.update({64: (Ptr('sliceshape', 0), 8), 72: (Ptr('sliceshape', 8), 8), 80: (Ptr('sliceshape', 8), 8),
+                   88: (Ptr('slicestrides', 0), 8), 96: (Ptr('slicestrides', 8), 8), 104: (Ptr('slicestrides', 8), 8), 112: (BV(0, 8), 1)})
+        item = nc.m.record('sliceitem', ic, const=True)
+    else:
+        a, b = nc.m.bv('start'), nc.m.bv('stop')
+        item = nc.m.record('sliceitem', {0: (nc.vptr_of('N7awkward10SliceRangeE', 'SLC'), 8), 8: (a, 8), 16: (b, 8), 24: (BV(k), 8)}, const=True)
+    nc.m.record('slicebuf', {0: (item, 8), 8: (NULL, 8)}, const=True)
+    sl = nc.m.record('slice', {0: (Ptr('slicebuf', 0), 8), 8: (Ptr('slicebuf', 16), 8), 16: (Ptr('slicebuf', 16), 8), 24: (BV(1, 8), 1)}, const=True)
+    nc.m.record('ret', {})
+    out = nc.m.call('_ZNK7awkward10NumpyArray7getitemERKNS_5SliceE', [Ptr('ret', 0), this, sl])
+    rcell = nc.m.cell('ret', 0)
+    if kind == 'array':
+        regs = [z3.If(v < 0, v + n, v) for v in iv]
+        inr = z3.And([z3.And(r >= 0, r < n) for r in regs] + [z3.BoolVal(True)])
+        obls = [('raises exactly when an index is out of range', z3.simplify(out.raised) != z3.Not(inr))]
+        want = []
+        for r in regs:
+            val = BV(-9)
+            for i in range(n):
+                val = z3.If(r == i, view[i], val)
+            want.append(Elem(val))
+        okp = z3.And(inr, z3.Not(out.raised))
+        for g, res in (nodeh.decode_cases(nc, out.mem, rcell) if rcell is not None else []):
+            if res is not None:
+                obls += [(nm, z3.And(g, okp, c)) for nm, c in compare(value(res), want)]
+    else:
+        obls = [('a range never raises', out.raised)]
+        first, cnt = slice_sel(BV(n), a, b, k)
+        p = z3.BitVec('p!pos', 64)
+        for g, q in (nodeh.ptr_cases(rcell) if rcell is not None else []):
+            if q.obj is None:
+                obls.append(('a result is returned', z3.And(g, z3.Not(out.raised))))
+                continue
+            # a range slice of a NumpyArray is again a view: shape / strides / byteoffset are symbolic -> read them instead of decoding values
+            o = out.mem.o[q.obj]
+            shp = nodeh._vec_terms(out.mem, o, q.off + fo[4], 'shape')
+            stp = nodeh._vec_terms(out.mem, o, q.off + fo[5], 'strides')
+            bo = o.cells[q.off + fo[6]][0]
+            if len(shp) != 1:
+                obls.append(('the result is one-dimensional', g)); continue
+            obls.append(('the range keeps len(range(*slice.indices(n))) items', z3.And(g, shp[0] != cnt)))
+            pos = first + p * k
+            byte = bo + p * stp[0]
+            obls.append(('item p of the result is view[first + p * step]', z3.And(g, p >= 0, p < cnt, byte != 8 * (offset + stride * pos))))
+        okp = z3.Not(out.raised)
+
+    def replay(model, ent):
+        ev = lambda t: model.eval(t, model_completion=True).as_signed_long()
+        buf = [100 + i for i in range(buflen)]          # buffer contents do not steer control flow: distinct values show any mix-up
+        vw = [buf[offset + stride * i] for i in range(n)]
+        base = 'i64 %s ' % fullnative.ints(buf)
+        mk = base + 'getitem 1 range %d %s %d ' % (offset, 'NONE', stride) if (offset or stride != 1) else base
+        # the view a[offset::stride] restricted to n items
+        mk += 'getitem 1 range 0 %d 1 ' % n
+        tok = lambda v: 'NONE' if v == KNONE else str(v)
+        if kind == 'array':
+            vals = [ev(v) for v in iv]
+            prog = mk + 'getitem 1 array %s' % fullnative.ints(vals)
+            try:
+                exp = [vw[v] for v in vals]
+            except IndexError:
+                exp = None
+            kind_, got = fullnative.akrun(prog)
+            payload = dict(program=prog, native=[kind_, got], expected=exp)
+            if exp is None:
+                return (kind_ != 'ERR'), 'view %s[%s]: out of range; native library %s %s' % (vw, vals, kind_, str(got)[:100]), payload
+            if kind_ != 'OK' or got != exp:
+                return True, 'int64 buffer %s viewed as [%d::%d][:%d] = %s, indexed by %s: native library %s %s, NumPy gives %s' % (buf, offset, stride, n, vw, vals, kind_, str(got)[:120], exp), payload
+            return False, 'native library agrees (%s)' % got, payload
+        A, B = ev(a), ev(b)
+        pyv = lambda v: None if v == KNONE else v
+        return akrun_check(mk + 'getitem 1 range %s %s %d' % (tok(A), tok(B), k), vw[slice(pyv(A), pyv(B), k)], 'view %s [%s:%s:%d]' % (vw, tok(A), tok(B), k))
+    small = lambda v: z3.Or(v == KNONE, z3.And(v >= -6, v <= 6))
+    return mdischarge(nc.m, 'NumpyArray::getitem view n=%d stride=%d offset=%d %s %d' % (n, stride, offset, kind, k), obls, [], replay=replay,
+                      prefer=([z3.And(v >= -6, v <= 6) for v in iv] if kind == 'array' else [small(a), small(b)]),
+                      extra=dict(bounds='view of %d items, stride %d, offset %d (concrete); index values / start, stop symbolic; buffer contents symbolic' % (n, stride, offset)))
+
+
+def jobs_numpy_getitem(tier):
+    js = []
+    views = [(3, 1, 0), (3, 2, 1), (2, 3, 2)] if tier == 'quick' else [(n, s, o) for n in (0, 1, 3) for s in (1, 2, 3) for o in (0, 1)]
+    for n, s, o in views:
+        for k in (1, 2):
+            js.append((h_numpy_getitem, (n, s, o, 'array', k), 600))
+        for step in ((1, -1, 2) if tier == 'quick' else (1, 2, 3, -1, -2)):
+            js.append((h_numpy_getitem, (n, s, o, 'range', step), 600))
+    return js
